@@ -29,3 +29,4 @@ META = dict(
          "destination overlap in one storage (memmove fast path vs element-wise path) — scope ND:overlap.",
     technique="Lean 4 proof (mixed radix, contiguity invariant, list folds) + differential correspondence model vs real code",
 )
+READY = True
